@@ -232,7 +232,14 @@ def assign_target(E, target, val, st):
                     raise OutsideSubset("subscript store into a temporary")
                 if isinstance(base, SVal) and isinstance(base.ty, TList):
                     i = E.coerce(idx, INT, s2).t
-                    s2 = E.guard(s2, z3.And(0 <= i, i < Q.Length(base.t)), IndexError, "list assignment index out of range")
+                    n_ = Q.Length(base.t)
+                    if z3.is_int_value(i) and i.as_long() < 0:
+                        i = n_ + i
+                        idx = SVal(i, INT)
+                        okc = i >= 0
+                    else:
+                        okc = z3.And(0 <= i, i < n_)
+                    s2 = E.guard(s2, okc, IndexError, "list assignment index out of range")
                     if s2 is None:
                         continue
                 E.assign_lv(s2, LV("key", lv, idx), val)
@@ -486,12 +493,15 @@ def _loop_ordinal(E, node, st):
     return None
 
 
-def _assigned_names(stmts):
+def _assigned_names(stmts, strict=False):
+    """names (re)bound in stmts; unless strict, also the roots of in-place mutations (x.append(..), x[k] = .., x.f = ..)"""
     out = set()
     for s in stmts:
         for n in ast.walk(s):
             if isinstance(n, ast.Name) and isinstance(n.ctx, (ast.Store, ast.Del)):
                 out.add(n.id)
+            elif strict:
+                continue
             elif isinstance(n, ast.Call) and isinstance(n.func, ast.Attribute) and n.func.attr in MUTATORS:
                 r = n.func.value
                 while isinstance(r, (ast.Attribute, ast.Subscript, ast.Call)):
@@ -683,6 +693,10 @@ def _discover(E, node, st, i, guard, ev):
     E.sink = []
     saved_paths = E.paths
     names = _assigned_names(node.body) | _assigned_names([ast.Assign(targets=[node.target], value=ast.Constant(0), lineno=0)])
+    rebound = _assigned_names(node.body, strict=True) | _assigned_names([ast.Assign(targets=[node.target], value=ast.Constant(0), lineno=0)], strict=True)
+    # a name that is only the root of an in-place mutation is havoced only if it holds a container VALUE (objects are
+    # references: their fields live in the heap, which is havoced separately)
+    names = {n for n in names if n in rebound or not (isinstance(st.env.get(n), SVal) and not _container(st.env[n].ty))}
     mods, heap_mods, ghost_mods, tainted = {}, set(), set(), []
     heap_objs = {}
     try:
